@@ -67,7 +67,17 @@ ECDH = {'ecdh-sha2-nistp256': (ec.SECP256R1, 'sha256'),
 X25519 = {'curve25519-sha256': 'sha256',
           'curve25519-sha256@libssh.org': 'sha256'}
 
-KEX_SUPPORTED = list(X25519) + list(ECDH) + list(DH_GROUPS) + list(GEX)
+# post-quantum hybrids (draft-ietf-sshm-mlkem-hybrid-kex): the ML-KEM
+# primitive itself is PyCA's, the exchange around it is written here
+#   name -> (ML-KEM variant, classical part, hash, pk bytes, ct bytes)
+HYBRID = {
+    'mlkem768x25519-sha256': ('768', 'x25519', 'sha256', 1184, 1088),
+    'mlkem768nistp256-sha256': ('768', ec.SECP256R1, 'sha256', 1184, 1088),
+    'mlkem1024nistp384-sha384': ('1024', ec.SECP384R1, 'sha384', 1568, 1568),
+}
+
+KEX_SUPPORTED = list(X25519) + list(ECDH) + list(DH_GROUPS) + list(GEX) + \
+    list(HYBRID)
 
 _HASHES = {'sha1': hashes.SHA1, 'sha256': hashes.SHA256,
            'sha384': hashes.SHA384, 'sha512': hashes.SHA512}
@@ -569,6 +579,53 @@ class RefPeer(asyncio.Protocol):
             k_enc = mpint(int.from_bytes(shared, 'big'))
             h = self._hash(hname, prefix, string(k_s), string(q_c),
                            string(q_s), k_enc)
+        elif kex in HYBRID:
+            from cryptography.hazmat.primitives.asymmetric import mlkem
+            variant, classical, hname, pklen, ctlen = HYBRID[kex]
+            pq_cls = getattr(mlkem, 'MLKEM%sPrivateKey' % variant)
+            pq_priv = pq_cls.from_seed_bytes(self.rand(64))
+            pq_pub = pq_priv.public_key().public_bytes_raw()
+
+            if classical == 'x25519':
+                priv = x25519.X25519PrivateKey.from_private_bytes(
+                    self.rand(32))
+                q_c = priv.public_key().public_bytes(
+                    serialization.Encoding.Raw,
+                    serialization.PublicFormat.Raw)
+            else:
+                d = 1 + int.from_bytes(self.rand(24), 'big')
+                priv = ec.derive_private_key(d, classical())
+                q_c = priv.public_key().public_bytes(
+                    serialization.Encoding.X962,
+                    serialization.PublicFormat.UncompressedPoint)
+
+            c_init = pq_pub + q_c
+            self.send(bytes([30]) + string(c_init))
+            r = Reader(await self.expect(31), 1)
+            k_s, s_reply, sig = r.string(), r.string(), r.string()
+
+            if len(s_reply) <= ctlen:
+                raise PeerError('hybrid reply too short')
+
+            try:
+                pq_secret = pq_priv.decapsulate(s_reply[:ctlen])
+            except ValueError as exc:
+                raise PeerError('ML-KEM ciphertext rejected: %s' %
+                                exc) from None
+
+            q_s = s_reply[ctlen:]
+
+            if classical == 'x25519':
+                shared = priv.exchange(
+                    x25519.X25519PublicKey.from_public_bytes(q_s))
+            else:
+                shared = priv.exchange(
+                    ec.ECDH(), ec.EllipticCurvePublicKey.from_encoded_point(
+                        classical(), q_s))
+
+            k_enc = string(hashlib.new(hname, pq_secret + shared).digest())
+            h = self._hash(hname, prefix, string(k_s), string(c_init),
+                           string(s_reply), k_enc)
         elif kex in DH_GROUPS or kex in GEX:
             gex_part = b''
 
@@ -645,6 +702,52 @@ class RefPeer(asyncio.Protocol):
             h = self._hash(hname, prefix, string(k_s), string(q_c),
                            string(q_s), k_enc)
             self.send(bytes([31]) + string(k_s) + string(q_s) +
+                      string(sign(hk, hk_alg, h)))
+        elif kex in HYBRID:
+            from cryptography.hazmat.primitives.asymmetric import mlkem
+            variant, classical, hname, pklen, ctlen = HYBRID[kex]
+            r = Reader(await self.expect(30), 1)
+            c_init = r.string()
+
+            if len(c_init) <= pklen:
+                raise PeerError('hybrid init too short')
+
+            try:
+                # encapsulation written from FIPS 203 (refssh/mlkem.py) so
+                # that its randomness comes from the seed; the client's
+                # decapsulation is the cross-check
+                from . import mlkem as ref_mlkem
+                pq_secret, ct = ref_mlkem.encaps(variant, c_init[:pklen],
+                                                 self.rand(32))
+            except ValueError as exc:
+                raise PeerError('ML-KEM public key rejected: %s' %
+                                exc) from None
+
+            q_c = c_init[pklen:]
+
+            if classical == 'x25519':
+                priv = x25519.X25519PrivateKey.from_private_bytes(
+                    self.rand(32))
+                q_s = priv.public_key().public_bytes(
+                    serialization.Encoding.Raw,
+                    serialization.PublicFormat.Raw)
+                shared = priv.exchange(
+                    x25519.X25519PublicKey.from_public_bytes(q_c))
+            else:
+                d = 1 + int.from_bytes(self.rand(24), 'big')
+                priv = ec.derive_private_key(d, classical())
+                q_s = priv.public_key().public_bytes(
+                    serialization.Encoding.X962,
+                    serialization.PublicFormat.UncompressedPoint)
+                shared = priv.exchange(
+                    ec.ECDH(), ec.EllipticCurvePublicKey.from_encoded_point(
+                        classical(), q_c))
+
+            s_reply = ct + q_s
+            k_enc = string(hashlib.new(hname, pq_secret + shared).digest())
+            h = self._hash(hname, prefix, string(k_s), string(c_init),
+                           string(s_reply), k_enc)
+            self.send(bytes([31]) + string(k_s) + string(s_reply) +
                       string(sign(hk, hk_alg, h)))
         elif kex in DH_GROUPS or kex in GEX:
             gex_part = b''
